@@ -9,7 +9,9 @@ if rnd == "-r3":
     extra3 = " - for THIS round: every clause of the statement is a separate obligation; break a clause that is stated late or in passing (a secondary clause, an 'including ...' case, a boundary, the behaviour after an error or after a cleanup/expiry step, a configuration corner case), preferably through a file that is NOT the first one listed, in state that is carried across calls, in an error path, or in code that only runs for rarely used settings; it must need something specific to manifest and a careful reviewer should be able to overlook it; make the variants call themselves \"e\" and \"f\" (directories e/ and f/, meta.json variant \"e\"/\"f\")"
 if rnd == "-r4":
     extra3 = " - for THIS round: assume an automated checker for this property already explores the obvious space (fresh objects, short histories, default configuration, the first alphabet that comes to mind, single instances). Put your defect OUTSIDE of that: it should only manifest with a history of four or more steps, or on the second/third occurrence of an event, or with two instances of something (two links, two sessions, two services, two peers) interacting, or with a non-default configuration value, or through an interaction with another subsystem (a periodic cleaner, a timer or expiry, a cache, a pool), or at a numeric boundary (0, maximum, wrap-around, exact buffer-size classes); a careful reviewer should be able to overlook it; make the variants call themselves \"g\" and \"h\" (directories g/ and h/, meta.json variant \"g\"/\"h\")"
-extra = extra3 if rnd in ("-r3", "-r4") else " - for THIS round prefer less obvious places: not the first function that comes to mind, ideally a defect that needs a multi-step history, a particular interleaving, or two cooperating code sites that each look fine alone, and that a careful reviewer could still overlook; make the variants call themselves \"c\" and \"d\" (directories c/ and d/, meta.json variant \"c\"/\"d\")" if rnd else ""
+if rnd == "-r5":
+    extra3 = " - for THIS round: assume an automated checker for this property explores fresh and used objects, multi-step histories, periodic cleaners, two instances of things, non-default settings and numeric boundaries of the listed files. Put your defect where such a checker is still likely to be blind: in an INDIRECT dependency that the property's mechanism relies on but that is not among the listed files (module/worker manager, buffer and object pools, configuration parsing helpers, address / prefix / label utilities, encoding helpers, storage), or in the INTERACTION of two features (for example lite or stub mode with gossip or forwarding, isolation with services, universes with peering, key rollover with replay protection, friends with name resolution), or in an ASYMMETRIC role (client vs server of a key exchange, dialling vs accepting side, lower vs higher address, first vs later link of a router); it must still break the property as stated, and a careful reviewer should be able to overlook it; make the variants call themselves \"i\" and \"j\" (directories i/ and j/, meta.json variant \"i\"/\"j\")"
+extra = extra3 if rnd in ("-r3", "-r4", "-r5") else " - for THIS round prefer less obvious places: not the first function that comes to mind, ideally a defect that needs a multi-step history, a particular interleaving, or two cooperating code sites that each look fine alone, and that a careful reviewer could still overlook; make the variants call themselves \"c\" and \"d\" (directories c/ and d/, meta.json variant \"c\"/\"d\")" if rnd else ""
 text = (f"""You are helping to evaluate a verification effort for the Go project mycoria (an overlay mesh router). Your job: craft a realistic, subtle code change ("seeded defect") that BREAKS the semantic property below while the project still compiles and its existing test suite still passes.
 
 Work ONLY inside the scratch git worktree {wt} (a checkout of the project). Do NOT read or touch /verif, /root/.vp or /repo - your work must be independent of them.
@@ -35,4 +37,4 @@ For each variant write into {out}/<a|b>/ (create the directory):
   - meta.json : {{"property":"{pid}","variant":"a","summary":"...what the change does...","needs":"...what is needed for it to manifest...","demo_path":"...","demo_cmd":"...","suite_passes":true}}
 After capturing a variant, reset the worktree (git -C {wt} checkout -- . ; remove the demo file) before starting the next one, and leave the worktree pristine at the end.
 Verify for each variant yourself: (i) suite passes with patch, (ii) demo fails with patch, (iii) demo passes without patch. Report briefly what you did.""")
-print(text.replace("{EXTRA}", extra).replace("<a|b>", "<g|h>" if rnd == "-r4" else "<e|f>" if rnd == "-r3" else ("<c|d>" if rnd else "<a|b>")))
+print(text.replace("{EXTRA}", extra).replace("<a|b>", "<i|j>" if rnd == "-r5" else "<g|h>" if rnd == "-r4" else "<e|f>" if rnd == "-r3" else ("<c|d>" if rnd else "<a|b>")))
